@@ -861,6 +861,15 @@ func (c *Conn) ReadBatchWith(cfg ReadBatchConfig) *Batch {
 		err = checkTimeoutErr(adjustedDeadline)
 	}
 
+	var kafkaError Error
+	if errors.As(err, &kafkaError) {
+		// The broker reported an error, the rest of the response must still be
+		// consumed to keep the connection usable after the batch is closed.
+		if _, discardErr := discardN(&c.rbuf, remain, remain); discardErr != nil {
+			err = discardErr
+		}
+	}
+
 	var msgs *messageSetReader
 	if err == nil {
 		if highWaterMark == offset {
